@@ -435,7 +435,17 @@ class DemoStorage(ConflictResolvingStorage):
                            self.changes.lastTransaction())
                 if last != ZODB.utils.z64:
                     k['tid'] = ZODB.utils.newTid(last)
-            self.changes.tpc_begin(transaction, *a, **k)
+            try:
+                self.changes.tpc_begin(transaction, *a, **k)
+            except:  # noqa: E722 do not use bare 'except'
+                # The changes storage refused (e.g. over-long meta data):
+                # we are not in a transaction, and our tpc_abort() will not
+                # pass the call on.
+                try:
+                    self.changes.tpc_abort(transaction)
+                finally:
+                    self._commit_lock.release()
+                raise
             self._transaction = transaction
             self._stored_oids = set()
             del self._resolved[:]
